@@ -113,7 +113,7 @@ def english(canon, base):
     if key not in _EN:
         PathTap.reset()
         dd = parser_for("en", "en", base).get_date_data(canon)
-        _EN[key] = (dd["date_obj"], dd["period"], PathTap.accepted())
+        _EN[key] = (dd["date_obj"], dd["period"], PathTap.accepted("relative-time"))
     return _EN[key]
 
 
@@ -174,7 +174,7 @@ def check_entry(ctx, e, counts, decimals, bases):
                 got = dd["date_obj"]
             except Exception as ex:
                 got = ex
-            path = PathTap.accepted()
+            path = PathTap.accepted("relative-time")
             ctx.ran()
             ent = "%s|%s|%s|%s" % (loc, canon, w, nf)
             if got != exp:
